@@ -5,6 +5,8 @@ running_identifiers, mtime(i) = info_map[i]['local_mtime'].  R = running-like st
 """
 from pyvc.spec import *
 
+GROUP = 'process'   # contracts of one group use each other's contracts at call sites (pyvc/hooks.py contract_for_call)
+
 R = (ProcessStates.STARTING, ProcessStates.BACKOFF, ProcessStates.RUNNING)
 S = (ProcessStates.STOPPED, ProcessStates.EXITED, ProcessStates.FATAL, ProcessStates.UNKNOWN)
 RS = (ProcessStates.STARTING, ProcessStates.BACKOFF, ProcessStates.RUNNING, ProcessStates.STOPPING)
